@@ -153,18 +153,15 @@ class Interp:
         elif t == 'VCall':
             f = self.fn(v[1])
             args = [self.ev(a) for a in v[2]]
-            passes_all = v[4] == ('true',)
+            mode = v[4][0]
             kw = {}
-            direct = any(item[2][0] == 'KwExpr' for item in v[3])
-            if not direct and f is not min:
-                # the caller's own keywords reach the callee when it declares them (or takes **kwargs)
+            if mode != 'PNone':
+                # the caller's own keywords reach the callee when it declares them (PDeclared) / all of them (PAll)
                 sig = inspect.signature(f)
                 names = [p.name for p in sig.parameters.values() if p.kind in (p.POSITIONAL_ONLY, p.POSITIONAL_OR_KEYWORD)]
-                haskw = any(p.kind == p.VAR_KEYWORD for p in sig.parameters.values())
-                if self.passthrough(v):
-                    for k, val in self.kw.items():
-                        if haskw or k in names:
-                            kw[k] = val
+                for k, val in self.kw.items():
+                    if mode == 'PAll' or k in names:
+                        kw[k] = val
             for item in v[3]:
                 name, kv = item[1], item[2]
                 if kv[0] == 'KwExpr':
@@ -181,10 +178,6 @@ class Interp:
         self.cache[key] = r
         return r
 
-    def passthrough(self, v):
-        return v[1] not in self.direct_only
-
-    direct_only = ()
 
 
 def same(a, b):
